@@ -59,3 +59,27 @@ Qed.
 Theorem C07_source_reviewed : group_ok 7 = true.
 Proof. exact gen_group_7. Qed.
 Print Assumptions C07_source_reviewed.
+
+(** Frame level: every CALL and CREATE entry point — whatever the instruction semantics, the Aspects,
+    the outcome — returns with a well-formed tree and the cursor where it was: no call is left open. *)
+From Verif Require Import Model.KeyTree Model.Tracer Model.Exec Proofs.Exec_proofs.
+Theorem C07_call_closes_tree : forall W M HT can_transfer transfer balance_of exists_acct create_account code_of collides
+    get_nonce set_nonce acl_add set_code touch is_homestead is_eip158 is_berlin is_london max_code_size is_precompile precompile
+    local_step init_machine keccak artela jp_on debug asp_logger bound aspect
+    fuel depth hint ps caller addr input gas value s r s',
+  do_call W M HT can_transfer transfer balance_of exists_acct create_account code_of collides get_nonce set_nonce acl_add set_code touch
+          is_homestead is_eip158 is_berlin is_london max_code_size is_precompile precompile local_step init_machine keccak
+          artela jp_on debug asp_logger bound aspect fuel depth hint ps caller addr input gas value s = Some (r, s') ->
+  ct_wf (tc (xt s)) -> ct_wf (tc (xt s')) /\ current (tc (xt s')) = current (tc (xt s)).
+Proof. exact call_closes_tree. Qed.
+Print Assumptions C07_call_closes_tree.
+Theorem C07_create_closes_tree : forall W M HT can_transfer transfer balance_of exists_acct create_account code_of collides
+    get_nonce set_nonce acl_add set_code touch is_homestead is_eip158 is_berlin is_london max_code_size is_precompile precompile
+    local_step init_machine keccak artela jp_on debug asp_logger bound aspect
+    fuel depth hint caller code gas value address typ s r s',
+  do_create W M HT can_transfer transfer balance_of exists_acct create_account code_of collides get_nonce set_nonce acl_add set_code touch
+          is_homestead is_eip158 is_berlin is_london max_code_size is_precompile precompile local_step init_machine keccak
+          artela jp_on debug asp_logger bound aspect fuel depth hint caller code gas value address typ s = Some (r, s') ->
+  ct_wf (tc (xt s)) -> ct_wf (tc (xt s')) /\ current (tc (xt s')) = current (tc (xt s)).
+Proof. exact create_closes_tree. Qed.
+Print Assumptions C07_create_closes_tree.
